@@ -223,6 +223,12 @@ def run_shard(spec, rec):
                          "$[?((C)) == 1]", "$[?(C) == 1]", "$[?( (C) != 1)]", "$[?((C) == 1) && @.y]", "$[?@.y && ((C) >= 1)]", "$[?(((C) == 1))]", "$[?((!(C)) == 1)]", "$[?(((C) == 1) == true)]"]:
                 handle(jp, rec, R, tmpl.replace("C", c_), "operator:paren-comparand-in-group", lib, 1.0)
                 rec.feat("operator:paren-comparand-in-group")
+        # escapes that do not denote a Unicode scalar value, in names and literals
+        for body in ["\\uD83D\\uD83D", "\\uD800\\uDBFF", "\\uDBFF\\uD800", "\\uDC00\\uDC00", "\\uDE00\\uD83D", "\\uD83D", "\\uDC00", "\\uD83D\\u0041", "\\uD83Dx", "\\uD83D\\n",
+                     "a\\uD83D\\uD83D\\uDE00", "\\uD83D\\uDE00\\uDE00", "\\udbff\\uffff", "\\ud800\\ue000"]:
+            for tmpl in ("$['%s']", '$["%s"]', "$[?@ == '%s']", '$[?match(@, "%s")]', "$.a['b', '%s']"):
+                handle(jp, rec, R, tmpl % body, "operator:escape-not-a-scalar-value", lib, 1.0)
+                rec.feat("operator:escape-not-a-scalar-value")
         for inv in ["\ufeff", "\u200b", "\u2060", "\u00a0", "\ufffe", "\u00ad", "\u200e", "\x7f", "\x00", "\u0085", "\u2028", "\u3000", "\u180e"]:
             for base in ["$", "$.a", "$[0]", "$..*", "$[?@.a == 1]", "$['a']"]:
                 for t in (inv + base, base + inv, inv + inv + base, base[:1] + inv + base[1:]):
